@@ -43,6 +43,7 @@ class Knobs:
         self.p_ops = r.choice((0.0, 0.0, 0.2, 0.4)) if allow_ops else 0.0
         self.p_edge = r.choice((0.0, 0.05, 0.2))       # empty alphabets, zero lengths, ...
         self.float_grid_safe = True
+        self.p_hooked = 0.0
 
 
 # ------------------------------------------------------------------ generation (witness-first)
@@ -516,7 +517,7 @@ def witness_of(spec, r):
         if spec.get("types"):
             return witness_of(spec["types"][0], r)
         return None
-    if t == "alias":
+    if t in ("alias", "hooked"):
         return witness_of(spec["inner"], r)
     if t == "op":
         op = spec["op"]
@@ -575,6 +576,8 @@ class Env:
         self.make_required = make_required
         self.DeclarationError = DeclarationError
         self.SubstitutionError = SubstitutionError
+        self.retain = None        # callable(container, role) -> None ; C07 keeps every container handed to d42
+        self.Hooked = None        # forwarding CustomSchema class (C07 only)
 
 
 def _apply_len(sch, ln):
@@ -649,7 +652,10 @@ def _build(spec, env):
         if "type" in spec:
             s = s(_build(spec["type"], env))
         elif "elements" in spec:
-            s = s([... if e == "..." else _build(e, env) for e in spec["elements"]])
+            lst = [... if e == "..." else _build(e, env) for e in spec["elements"]]
+            if env.retain:
+                env.retain(lst, "declared_list")
+            s = s(lst)
         if "len" in spec:
             s = _apply_len(s, spec["len"])
         return s
@@ -663,6 +669,8 @@ def _build(spec, env):
             else:
                 key = dec(e["k"])
                 d[env.optional(key) if e["opt"] else key] = _build(e["s"], env)
+        if env.retain:
+            env.retain(d, "declared_dict")
         return sc.dict(d)
     if t == "any":
         if "types" not in spec:
@@ -670,6 +678,10 @@ def _build(spec, env):
         return sc.any(*[_build(x, env) for x in spec["types"]])
     if t == "alias":
         return sc.alias(spec["name"], _build(spec["inner"], env))
+    if t == "hooked":
+        if env.Hooked is None:
+            raise BuildError("hooked type not available")
+        return env.Hooked()(_build(spec["inner"], env))
     if t == "op":
         op = spec["op"]
         if op == "|":
@@ -677,10 +689,16 @@ def _build(spec, env):
         if op == "+":
             return _build(spec["a"], env) + _build(spec["b"], env)
         if op == "%":
-            return _build(spec["s"], env) % dec(spec["v"])
+            val = dec(spec["v"])
+            if env.retain and type(val) in (list, dict):
+                env.retain(val, "substitute_arg")
+            return _build(spec["s"], env) % val
         if op == "make_required":
             ks = spec["keys"]
-            return env.make_required(_build(spec["s"], env), None if ks is None else [dec(x) for x in ks])
+            kl = None if ks is None else [dec(x) for x in ks]
+            if env.retain and kl is not None:
+                env.retain(kl, "make_required_keys")
+            return env.make_required(_build(spec["s"], env), kl)
     raise ValueError("unknown spec %r" % (spec,))
 
 
@@ -701,7 +719,7 @@ def children(spec):
         return [e["s"] for e in spec.get("keys", []) if "s" in e]
     if t == "any":
         return list(spec.get("types", []))
-    if t == "alias":
+    if t in ("alias", "hooked"):
         return [spec["inner"]]
     if t == "op":
         return [spec[x] for x in ("a", "b", "s") if x in spec]
@@ -919,7 +937,7 @@ def shrink_spec(spec):
         for i, e in enumerate(ts):
             for c in shrink_spec(e):
                 yield dict(spec, types=ts[:i] + [c] + ts[i + 1:])
-    elif t == "alias":
+    elif t in ("alias", "hooked"):
         for c in shrink_spec(spec["inner"]):
             yield dict(spec, inner=c)
     elif t == "str":
